@@ -1,6 +1,8 @@
 \* C29 PoSA: family bsc, chain configuration B (MCPoSA!SetsB), mode gen
 SPECIFICATION Spec
 CONSTANTS Family = "bsc"
+          Epoch = 0
+          CliqueFixed = FALSE
           Sets <- SetsB
           GenesisSigner = "c"
           G0 = 200
